@@ -121,7 +121,7 @@ func c07TreeBodyInner(t *c07Tree, kindSeed *int) *YMap { return c07TreeBody(t, k
 func init() {
 	Register(Meta{
 		ID: "C07", Level: "exploration",
-		Rule: "axes swept completely to a bound past every size-dependent cliff in the translator (26-entry variable list, `<var>s` plurals, X<n> fallback, counter digits): A1 every documented constraint kind (23 + a combination) and nested/atLeast/atMost x every path AST with <=2 (quick) / <=3 (thorough) leaves; A2 q=1..40 quantified sibling constraints under one map for each quantifier kind, and nested+atLeast+atMost on one path; A3 linear quantifier chains of depth 1..7 (quick) / 1..9 (thorough; the engine's compile time grows ~3.6x per level) and every ordered rooted tree of quantifiers with <=5 (quick) / <=6 (thorough) nodes x rotating quantifier kinds; A4 v=1..40 validations in three level distributions; A5 every C01 propositional formula of size <=1 (quick) / <=2 (thorough) under a quantifier preceded by q in {0,10,11,12,25,26,27} quantified siblings (so the formula meets every variable-index cliff). A7 profile names in several scripts and with reserved words. A8 boundary values of constraint arguments: in/containsAll/containsSome lists with 0, 1, 2 (duplicate), 3 and 40 members of every scalar type, count/length bounds 0..10^6, numeric bounds 0/negative/fractional/1e21 and 18 decimal spellings of numbers written verbatim (+5, 25.e-9, .5, 5E-3, +.5e+2, -0.0, ...), empty and one-character patterns, each plain, negated and under a quantifier. A6 every (quick: half of the) ordered pairs of constraint kinds on one property joined by or / if-then / not-and / or inside nested. Oracle: CompileProfile returns no error, and one evaluation on an empty graph and on a small graph returns no error (a policy rejected at first evaluation because generated rules collide is not 'accepted'). Non-trivial = every profile (each is a distinct well-formed program); distinct by text.",
+		Rule: "axes swept completely to a bound past every size-dependent cliff in the translator (26-entry variable list, `<var>s` plurals, X<n> fallback, counter digits): A1 every documented constraint kind (23 + a combination) and nested/atLeast/atMost x every path AST with <=2 (quick; plus the 3-leaf ones over {p, q, p^} with three kinds) / <=3 (thorough) leaves; A2 q=1..40 quantified sibling constraints under one map for each quantifier kind, and nested+atLeast+atMost on one path; A3 linear quantifier chains of depth 1..7 (quick) / 1..9 (thorough; the engine's compile time grows ~3.6x per level) and every ordered rooted tree of quantifiers with <=5 (quick) / <=6 (thorough) nodes x rotating quantifier kinds; A4 v=1..40 validations in three level distributions; A5 every C01 propositional formula of size <=1 (quick) / <=2 (thorough) under a quantifier preceded by q in {0,10,11,12,25,26,27} quantified siblings (so the formula meets every variable-index cliff). A7 profile names in several scripts and with reserved words. A8 boundary values of constraint arguments: in/containsAll/containsSome lists with 0, 1, 2 (duplicate), 3 and 40 members of every scalar type, count/length bounds 0..10^6, numeric bounds 0/negative/fractional/1e21 and 18 decimal spellings of numbers written verbatim (+5, 25.e-9, .5, 5E-3, +.5e+2, -0.0, ...), empty and one-character patterns, each plain, negated and under a quantifier. A6 every (quick: half of the) ordered pairs of constraint kinds on one property joined by or / if-then / not-and / or inside nested. Oracle: CompileProfile returns no error, and one evaluation on an empty graph and on a small graph returns no error (a policy rejected at first evaluation because generated rules collide is not 'accepted'). Non-trivial = every profile (each is a distinct well-formed program); distinct by text.",
 	}, c07Gen, c07Run)
 }
 
@@ -144,6 +144,18 @@ func c07Gen(tier string, emit func(c07Case)) {
 		}
 		for q := 0; q < 3; q++ {
 			emit(c07Case{"A1", fmt.Sprintf("quantifier %d on %s", q, txt), c07One(M("propertyConstraints", M(txt, c07Quant(q, c07Atom))))})
+		}
+	}
+	if tier != "thorough" {
+		// quick: the 3-leaf paths over a forward, a second forward and an inverse step, with a count, a set and a quantified constraint
+		for _, p := range PathASTs(3, []*PExpr{PP("ex.p"), PP("ex.q"), PI("ex.p")}) {
+			txt := p.Render()
+			for _, k := range []struct {
+				n string
+				c *YMap
+			}{{"minCount", M("minCount", 1)}, {"in", M("in", strs("a", "b"))}, {"nested", c07Quant(0, c07Atom)}} {
+				emit(c07Case{"A1", k.n + " on " + txt, c07One(M("propertyConstraints", M(txt, k.c)))})
+			}
 		}
 	}
 	// A2
